@@ -279,15 +279,19 @@ impl ZincEncode for Grid {
             writer.write_all(b"<<\n")?;
         }
 
-        writer.write_fmt(format_args!("ver:\"{GRID_FORMAT_VERSION}\"\n"))?;
+        writer.write_fmt(format_args!("ver:\"{GRID_FORMAT_VERSION}\""))?;
 
-        // Grid meta
+        // Grid meta, on the same line as the version
         if let Some(meta) = &self.meta {
-            write_dict_tags(writer, meta, b" ")?;
+            if !meta.is_empty() {
+                writer.write_all(b" ")?;
+                write_dict_tags(writer, meta, b" ")?;
+            }
         }
+        writer.write_all(b"\n")?;
 
-        if self.is_empty() {
-            // No rows to be written
+        if self.columns.is_empty() {
+            // No columns to be written
             writer.write_all(b"empty\n")?;
         } else {
             // Columns
@@ -304,6 +308,9 @@ impl ZincEncode for Grid {
                 for (i, col) in self.columns.iter().enumerate() {
                     if let Some(tag) = row.get(&col.name) {
                         tag.zinc_encode(writer, InnerGrid::Yes)?;
+                    } else if self.columns.len() == 1 {
+                        // An empty line would end the grid
+                        writer.write_all(b"N")?;
                     }
                     if i < self.columns.len() - 1 {
                         writer.write_all(b",")?;
@@ -400,7 +407,10 @@ impl ToZinc for Column {
     fn to_zinc<W: std::io::Write>(&self, writer: &mut W) -> Result<()> {
         write_str(writer, &self.name)?;
         if let Some(meta) = &self.meta {
-            write_dict_tags(writer, meta, b" ")?;
+            if !meta.is_empty() {
+                writer.write_all(b" ")?;
+                write_dict_tags(writer, meta, b" ")?;
+            }
         }
         Ok(())
     }
